@@ -23,10 +23,24 @@ def log(*a):
 
 # ------------------------------------------------------------------ plans -----------------------
 
-def load_groups():
+def enabled_units():
+    p = os.path.join(VERIF, 'meta', 'units_enabled.json')
+    if os.path.exists(p):
+        return set(json.load(open(p)))
+    return None
+
+def load_groups(all_units=False):
     groups = []
+    en = None if all_units else enabled_units()
     for p in sorted(glob.glob(os.path.join(VERIF, 'plan', '*.json'))):
-        d = json.load(open(p))
+        try:
+            d = json.load(open(p))
+        except ValueError as e:
+            if en is None:
+                raise SystemExit('bad plan file %s: %s' % (p, e))
+            continue
+        if en is not None and d.get('unit', os.path.basename(p)[:-5]) not in en:
+            continue
         common = d.get('common', {})
         for g in d['groups']:
             gg = dict(common); gg.update(g)
@@ -157,6 +171,14 @@ def run_group(g, woven, scratch, want_trace=False):
             if g.get('loop_contracts', True):
                 gi += ['--apply-loop-contracts']
         elif route == 'legacy':
+            # keep only what the entry reaches: loop contracts of unrelated functions must not interfere
+            a1 = os.path.join(gdir, 'a1.gb')
+            rc, out, t = run_cmd(['goto-instrument', '--drop-unused-functions', a_gb, a1], 120, 8)
+            res['build_s'] += t
+            if rc != 0:
+                res['reason'] = 'goto-instrument --drop-unused-functions failed: ' + out[-800:]
+                return res
+            a_gb = a1
             for r in g['replace']:
                 gi += ['--replace-call-with-contract', r]
             if g.get('enforce'):
@@ -206,12 +228,13 @@ def run_group(g, woven, scratch, want_trace=False):
                             trace=r.get('trace') if want_trace else None))
         res['obligations'] = obs
         bad = [o for o in obs if o['status'] not in ('SUCCESS', 'FAILURE')]
-        if bad:
-            last_reason = 'obligation status %s on %s: %s' % (bad[0]['status'], be, bad[0]['name'])
-            continue
         canaries = [o for o in obs if (o['desc'] or '').startswith('VG_CANARY')]
         real = [o for o in obs if not (o['desc'] or '').startswith('VG_CANARY')]
         failed = [o for o in real if o['status'] == 'FAILURE']
+        if bad and not failed:
+            # ERROR = solver said unknown; UNKNOWN without any definite failure = not determined
+            last_reason = 'obligation status %s on %s: %s' % (bad[0]['status'], be, bad[0]['name'])
+            continue
         res['n_real'] = len(real)
         res['n_canary'] = len(canaries)
         if failed:
